@@ -79,6 +79,10 @@ def run(ctx: Context) -> None:
     from . import c10 as _c10
     from .common import share_obligations as _share
     _share(ctx, _c10, {'R10.2', 'R10.5'}, 'R16.5')
+    # the inventory of a CF grid starts from the discovered coordinate names: which variable is found has to be a function of the
+    # dataset (first match in variable order), not of set iteration order, or the key of one dataset differs between processes
+    from . import c11 as _c11
+    _share(ctx, _c11, {'R11.3'}, 'R16.5')
     from .common import adopt_foundations as _adopt
     _adopt(ctx, 'R16.6', ['topology', 'order'], floor=60)
     ctx.assume("hashlib digests and numpy tobytes('C') are deterministic functions of their input bytes")
